@@ -32,6 +32,7 @@ package parser
 
 import (
 	"fmt"
+	"strconv"
 	"strings"
 	"unicode"
 	"unicode/utf16"
@@ -549,6 +550,49 @@ func litName(prefix rune) string {
 	case 'b':
 		return "binary literal"
 	}
+}
+
+// newInteger returns an ast.IntegerNode for the integer literal text. If its
+// value does not fit in an int64 it records an error and returns a zero node
+// so that parsing can carry on to report it.
+func (l *lexer) newInteger(text string) *ast.IntegerNode {
+	if _, err := strconv.ParseInt(text, 0, 64); err != nil {
+		l.errorf("integer literal %v is out of range", text)
+		return ast.NewInteger("0")
+	}
+	return ast.NewInteger(text)
+}
+
+// newNumeric returns an ast.NumericNode for the numeric literal text. If its
+// value is not a finite float64 it records an error and returns a zero node
+// so that parsing can carry on to report it.
+func (l *lexer) newNumeric(text string) *ast.NumericNode {
+	if _, err := strconv.ParseFloat(text, 64); err != nil {
+		l.errorf("numeric literal %v is out of range", text)
+		return ast.NewNumeric("0")
+	}
+	return ast.NewNumeric(text)
+}
+
+// newNumber returns an ast.IntegerNode for the integer literal text or, if
+// its value does not fit in an int64, an ast.NumericNode for the nearest
+// float64. Records an error if text can be converted to neither.
+func (l *lexer) newNumber(text string) ast.Node {
+	if _, err := strconv.ParseInt(text, 0, 64); err == nil {
+		return ast.NewInteger(text)
+	}
+	return l.newNumeric(text)
+}
+
+// anyLevel returns the .** nesting level for the integer literal text. Records
+// an error if it's out of range.
+func (l *lexer) anyLevel(text string) int {
+	level, err := strconv.ParseInt(text, 0, 32)
+	if err != nil {
+		l.errorf("nesting level %v is out of range", text)
+		return 0
+	}
+	return int(level)
 }
 
 // setResult creates an ast.AST and assigns it to l.result unless
